@@ -86,6 +86,11 @@ func galias(args []string) error {
 				bad := func(what, want, got string) {
 					rep.Add(run.Mismatch{Property: *prop, Sig: what + ":" + string(text0) + ":" + fmt.Sprint(histString(hist)) + fmt.Sprint(cp) + prev + how, Text: string(text0), Cfg: cfg, Want: want, Got: got, Detail: what})
 				}
+				defer func() {
+					if p := recover(); p != nil {
+						bad("panic", "no panic in any API call of the history or of the read-back", fmt.Sprint(p))
+					}
+				}()
 				input := append([]byte{}, text0...)
 				// the object may be a reused one whose previous call ran with either option
 				var reuse *simdjson.ParsedJson
